@@ -40,6 +40,9 @@ pub enum Ev {
     RxUpdate,
     RxRouteRefresh,
     UpdateSent,
+    /// driver level only: an UPDATE whose AS_PATH contains the local AS (the route is not
+    /// installed; it is an UPDATE received all the same)
+    RxLoopedUpdate,
 }
 
 #[derive(Clone, Debug, Serialize, Deserialize)]
@@ -281,7 +284,7 @@ pub fn check(c: &Case) -> CheckResult {
                 last_rearm = d.now;
                 d.serve_due(&mut fsm, role);
             }
-            Ev::RxUpdate => {
+            Ev::RxUpdate | Ev::RxLoopedUpdate => {
                 let o = fsm.process(role, Input::MessageReceived(update_msg()));
                 d.apply(o);
                 last_rearm = d.now;
@@ -374,6 +377,7 @@ enum Act {
     Open,
     Keepalive,
     Update,
+    LoopedUpdate,
 }
 
 struct Plan {
@@ -383,6 +387,8 @@ struct Plan {
     end: u64,
     negotiated: u64,
     established: bool,
+    /// instant of the KEEPALIVE that completes the OPEN exchange
+    established_at: Option<u64>,
     /// a keepalive timer was due in the very second the session went down: which of the two
     /// the driver serves first is a tie of the model's whole seconds, not of the daemon
     ka_due_at_down: bool,
@@ -398,6 +404,7 @@ fn plan(c: &Case, eor: bool) -> Plan {
     let ka_int = negotiated / 3;
     let mut acts = Vec::new();
     let mut established = false;
+    let mut established_at = None;
     let o = fsm.process(role, Input::Connected(false));
     d.apply(o);
     d.serve_due(&mut fsm, role);
@@ -417,6 +424,9 @@ fn plan(c: &Case, eor: bool) -> Plan {
         d.apply(o);
         d.serve_due(&mut fsm, role);
         established = fsm.state(role) == State::Established;
+        if established {
+            established_at = Some(d.now);
+        }
         if established && eor {
             let o = fsm.process(role, Input::UpdateSent);
             d.apply(o);
@@ -443,6 +453,12 @@ fn plan(c: &Case, eor: bool) -> Plan {
                 d.apply(o);
                 d.serve_due(&mut fsm, role);
             }
+            Ev::RxLoopedUpdate => {
+                acts.push((d.now, Act::LoopedUpdate));
+                let o = fsm.process(role, Input::MessageReceived(update_msg()));
+                d.apply(o);
+                d.serve_due(&mut fsm, role);
+            }
             Ev::RxUpdate => {
                 acts.push((d.now, Act::Update));
                 let o = fsm.process(role, Input::MessageReceived(update_msg()));
@@ -453,7 +469,7 @@ fn plan(c: &Case, eor: bool) -> Plan {
         }
     }
     let ka_due_at_down = d.down.as_ref().is_some_and(|(_, td)| d.ka.is_some_and(|k| k <= *td));
-    Plan { acts, keepalives: d.keepalives_sent.clone(), down: d.down.clone(), end: d.now, negotiated, established, ka_due_at_down }
+    Plan { acts, keepalives: d.keepalives_sent.clone(), down: d.down.clone(), end: d.now, negotiated, established, established_at, ka_due_at_down }
 }
 
 const MARKER: [u8; 16] = [0xff; 16];
@@ -463,12 +479,22 @@ fn wire(a: Act, remote_hold: u16) -> Vec<u8> {
     match a {
         Act::Keepalive => m.extend_from_slice(&[0, 19, 4]),
         Act::Update => m.extend_from_slice(&[0, 23, 2, 0, 0, 0, 0]),
+        Act::LoopedUpdate => {
+            // ORIGIN IGP, AS_PATH [peer AS, the local AS], NEXT_HOP 192.0.2.1; NLRI 10.9.0.0/16 (the repository's encoder)
+            let spec = crate::cgen::AttrSpec { origin: Some(0), as_path: Some(vec![crate::cgen::Seg { t: 2, n: 2, base: 0, asns: vec![REMOTE_AS, LOCAL_AS] }]), ..Default::default() };
+            let msg = bgp::Message::Update(bgp::Update::Reach { family: packet::Family::IPV4, entries: vec![bgp::PathNlri { path_id: 0, nlri: crate::cgen::v4(10, 9, 0, 0, 16) }], nexthop: Some(bgp::Nexthop::V4(std::net::Ipv4Addr::new(192, 0, 2, 1))), attr: std::sync::Arc::new(spec.build()) });
+            let mut codec = bgp::PeerCodec::new();
+            codec.set_family(packet::Family::IPV4, bgp::FamilyState { addpath_rx: false, addpath_tx: false });
+            let mut buf = bytes::BytesMut::new();
+            let _ = codec.encode_to(&msg, &mut buf);
+            return buf.to_vec();
+        }
         Act::Open => {
             let mut body = vec![4u8];
             body.extend_from_slice(&(REMOTE_AS as u16).to_be_bytes());
             body.extend_from_slice(&remote_hold.to_be_bytes());
             body.extend_from_slice(&0x0a00_0002u32.to_be_bytes());
-            let mut cap = vec![65u8, 4];
+            let mut cap = vec![1u8, 4, 0, 1, 0, 1, 65, 4];
             cap.extend_from_slice(&REMOTE_AS.to_be_bytes());
             body.push(2 + cap.len() as u8);
             body.push(2);
@@ -583,7 +609,8 @@ async fn drive(c: &Case) -> CheckResult {
     use std::time::Duration;
     use tokio::io::AsyncWriteExt;
 
-    let p = plan(c, false);
+    // the daemon sends End-of-RIB when the session establishes (IPv4 is negotiated): one UpdateSent there
+    let p = plan(c, true);
     let src = crate::props::wirepeer::fresh_loopback();
     let rig = AdmitRig::new(LOCAL_AS, None).await.map_err(|e| Failure::new("harness", e))?;
     let cfg = NeighborCfg { addr: src, remote_asn: REMOTE_AS, local_asn: 0, rs_client: false, rr_client: false, cluster_id: None, admin_down: false, holdtime: c.local_hold as u64, families: vec![(packet::Family::IPV4, 0)], prefix_limit: None, gr: None, llgr: None };
@@ -664,16 +691,23 @@ async fn drive(c: &Case) -> CheckResult {
             tries += 1;
         }
         windows += 1;
+        if std::env::var("VERIF_DEBUG").is_ok() {
+            eprintln!("t={t} want_ka={want_ka} want_down={want_down} got={got:?} states={:?} rx={}", rig.fsm_states(src).await, rig.rx_frames(src).await);
+        }
         let down_seen = got.closed || !got.notifications.is_empty();
         if got.garbage {
             return Err(wit(Failure::new("driver-garbage", format!("t={t}s: bytes from the daemon that are not a BGP message"))));
         }
-        if got.updates > 0 {
-            // the reference does not model UPDATEs sent by the daemon (they restart its keepalive timer)
+        if (got.updates > 0) != (p.established_at == Some(t)) {
+            // the reference models exactly one UPDATE sent by the daemon, the End-of-RIB at
+            // establishment (it restarts the keepalive timer); anything else is outside it
             return Ok(CaseInfo::trivial().class("driver-inconclusive-daemon-sent-update"));
         }
         let tie = want_down && p.ka_due_at_down && got.keepalives == want_ka + 1;
-        if got.keepalives != want_ka && !tie {
+        // likewise a keepalive timer due in the second in which the session establishes: the
+        // End-of-RIB sent there restarts the timer, before or after it fired
+        let tie2 = p.established_at == Some(t) && got.updates > 0 && want_ka > 0 && got.keepalives + 1 == want_ka;
+        if got.keepalives != want_ka && !tie && !tie2 {
             return Err(wit(Failure::new("driver-keepalive", format!("t={t}s: the reference sends {want_ka} KEEPALIVE(s) in this second, the daemon sent {} ({got:?})", got.keepalives)).with("want", want_ka).with("got", got.keepalives)));
         }
         if want_down != down_seen {
@@ -720,6 +754,7 @@ pub fn arb_driver_case(max_len: usize) -> impl Strategy<Value = Case> {
         6 => arb_dt().prop_map(Ev::Advance),
         3 => Just(Ev::RxKeepalive),
         2 => Just(Ev::RxUpdate),
+        2 => Just(Ev::RxLoopedUpdate),
     ];
     (any::<bool>(), arb_hold(), arb_hold(), 0u16..3, 0u16..3, proptest::collection::vec(ev, 0..=max_len))
         .prop_map(|(passive, local_hold, remote_hold, open_delay, ka_delay, script)| Case { passive, local_hold, remote_hold, open_delay, ka_delay, script })
